@@ -43,6 +43,7 @@ def run(rep, tier):
     rep.rule("C-unesc", "every payload the two text readers return is un-doubled exactly once, after its delimiting quotes were removed")
     rep.rule("C-regex-label", "the long reader's payload regexes are greedy and span lines")
     rep.rule("C-num-regex / C-num-conv", "numeric regexes and the span converter accept the writer's (and the specification's) plain and exponent notation")
+    rep.rule("C-blocks", "the short reader pairs adjacent tier offsets only on an ascending list (one scan, or sorted after the merge)")
     rep.rule("C-scan", "delimiter scans over raw text cannot match inside an escaped payload")
     rep.rule("C-flow", "CRLF normalisation precedes scanning; JSON tried first; blank removal iff includeEmptyIntervals is False and exactly the empty labels; UTF-16 then UTF-8")
     rep.rule("H-siblings", "the long and short parsers produce the same keys, value kinds, constructors, strip discipline and conversions")
@@ -56,6 +57,7 @@ def run(rep, tier):
     R.rule_numeric_regex(rep, tier)
     R.rule_numeric_conversion(rep, tier)
     R.rule_scans(rep)
+    R.rule_block_order(rep)
     R.rule_reader_flow(rep)
     rule_parser_siblings(rep)
     R.rule_duplicate_names(rep)
